@@ -1584,7 +1584,16 @@ def part_second_database(ctx, res):
 
 
 def part_array_forms(ctx, res):
-    part_batch_real(ctx, res, 'Al-Zr', ctx.n(14, 120))
+    # always present: a thermal cycle and a first==last array whose g values reach beyond the stability limit of the
+    # precipitate (sentinel handling of the array forms), and a cycle with a scalar g
+    r = ctx.rng
+    a, b, c = r.uniform(600, 690), r.uniform(760, 860), r.uniform(700, 750)
+    g1, g2 = r.uniform(0, 9000), r.uniform(0, 9000)
+    forced = [('cycle', np.array([a, b, a]), [a, b, a], 'array', np.array([g1, 60000.0, g2]), [g1, 60000.0, g2]),
+              ('first-last', np.array([b, a, c, b]), [b, a, c, b], 'array', np.array([60000.0, g1, g2, 0.0]), [60000.0, g1, g2, 0.0]),
+              ('cycle', np.array([b, a, b]), [b, a, b], 'scalar', g1, [g1])]
+    part_batch_real(ctx, res, 'Al-Zr', 0, cases=forced)
+    part_batch_real(ctx, res, 'Al-Zr', ctx.n(12, 120))
     part_batch_real(ctx, res, ALSCZR, ctx.n(4, 40))
 
 
